@@ -6,8 +6,8 @@ SPEC = dict(
     level="proof",
     design_ref="DESIGN.md §5 C09",
     technique=("Lean 4 proof: the cartesian_power iterator state machine refines the tuple enumeration (invariant + induction); "
-               "each checker is the fold the code performs and its Ok is proved equivalent to its law; differential correspondence "
-               "with the real checkers over operation tables"),
+               "each checker is the fold the code performs and its Ok is proved equivalent to its law; the composite checkers are "
+               "re-translated from the Rust source on every run; differential correspondence with the real checkers over operation tables"),
     level_text=("Theorems (all carriers: arbitrary item list over an arbitrary type with decidable equality, arbitrary operation functions): "
                 "cartesianPower_enumerates — the CartesianPower state machine (peekable digit iterators with the go_next carry, transcribed "
                 "from lattices/src/test.rs) yields exactly allTuples n items in order, never panics, with allTuples_mem/_length/_nodup/_map "
@@ -15,15 +15,20 @@ SPEC = dict(
                 "early return is the plain first-error loop over that list; <checker>_ok_iff_law for associativity, commutativity, idempotency, "
                 "identity, inverse, nonzero_inverse, absorbing_element, left/right_distributes, distributive, no_nonzero_zero_divisors, linearity, "
                 "bilinearity and the composites semigroup, monoid, commutative_monoid, group, abelian_group, semiring, ring, commutative_ring, "
-                "integral_domain, field (Ok <-> conjunction of the component laws on every tuple over items), and getSingleFunctionProperties_mem. "
+                "integral_domain, field (Ok <-> conjunction of the component laws on every tuple over items), getSingleFunctionProperties_mem, "
+                "<checker>_err_msg (a checker that is not Ok answers its own message; identity says which side failed), semiring_first_failure "
+                "(the composite reports its first failing component in source order) and semiring_ok_iff_semiringLaws_of_complete (on a sample covering "
+                "the carrier, Ok <-> the structure is a semiring). The 11 composite checkers are not hand-modelled: their `?`-chains are regenerated from "
+                "lattices/src/algebra.rs into Gen/Composites.lean on every run (translation T), and the theorems are about those generated definitions. "
                 "F2: the shipped linearity compared with g(q(b),q(a)); linearity_refuted_before_fix proves the clause false for that code on the "
                 "2-element witness, /repo b3a76e33cee repairs it and linearity_ok_iff_law is proved for the repaired code. "
                 "Semiring applications: binaryTrust_semiring_laws (Bool, all laws), multiplicity_guarded_semiring_laws (checked_add/mul on u32 "
                 "modelled as partial ops on Nat: every law holds whenever neither side panics, results stay in range), cost_semiring_laws_unbounded "
                 "+ cost_mulChecked_eq + cost_mulWrapping_eq_of_no_overflow (N∪{inf}, min, +: laws over unbounded Nat and agreement of the u32 code "
                 "with it under the no-overflow guard), semiring_ok_of_laws (the checker accepts every sample of such a structure). "
-                "PARTIAL for f64: ConfidenceScore and FuzzyLogic are NOT covered by any theorem (floating point is not modelled); their laws are "
-                "only evaluated on the real f64 code by the harness oracle, which reproduces F3 (ConfidenceScore multiplication is not associative). "
+                "PARTIAL for f64: ConfidenceScore and FuzzyLogic are NOT covered by any theorem about the code (floating point is not modelled); "
+                "confidenceScore_/fuzzyLogic_semiring_exact_arithmetic only state the intended semantics over an exact linearly ordered commutative ring on [0,1]. "
+                "For the real f64 code the laws are evaluated by the harness oracle, which reproduces F3 (ConfidenceScore multiplication is not associative). "
                 "Tie: every checker of lattices::algebra is run through closures over lookup tables on all 16 tables / 256 table pairs / all (f,g,q) "
                 "over the 2-element carrier, on structured (Z_d, max/min, tropical, or/and, xor/and, projections; relabelled, perturbed) and random "
                 "tables over carriers of size 3..5 with item lists of length 0..5 (thorough: all 19683 tables of size 3 for the single-operation "
@@ -41,3 +46,141 @@ SPEC = dict(
     assumptions=["carrier elements are u8 indices into lookup tables; tables are total over the carrier",
                  "semiring laws for Multiplicity/Cost are claimed under the no-overflow guard (checked ops panic otherwise)"],
 )
+
+
+# ----------------------------------------------------------------------------- translation (T)
+# The composite checkers of lattices/src/algebra.rs (functions whose body is only `callee(args)?; … Ok(())`)
+# are re-extracted from the source on every run into lean/HvAlg/HvAlg/Gen/Composites.lean; the driver and
+# the theorems use these generated definitions, so a dropped / added / reordered component check changes the
+# model the theorems are about.
+import os as _os
+import re as _re
+
+_SINGLE = {"no_nonzero_zero_divisors", "left_distributes", "right_distributes", "absorbing_element", "inverse",
+           "nonzero_inverse", "identity", "associativity", "commutativity", "idempotency", "linearity", "bilinearity"}
+_COMPOSITE = {"monoid", "semigroup", "semiring", "ring", "integral_domain", "commutative_ring", "field",
+              "commutative_monoid", "group", "abelian_group", "distributive"}
+
+
+def _camel(n):
+    p = n.split("_")
+    return p[0] + "".join(x.capitalize() for x in p[1:])
+
+
+def _strip_comments(s):
+    s = _re.sub(r"/\*.*?\*/", "", s, flags=_re.S)
+    return _re.sub(r"//[^\n]*", "", s)
+
+
+def _split_top(s):
+    out, depth, cur = [], 0, ""
+    for ch in s:
+        if ch in "([<":
+            depth += 1
+        elif ch in ")]>" and not cur.endswith("-"):
+            depth -= 1
+        if ch == "," and depth == 0:
+            out.append(cur)
+            cur = ""
+        else:
+            cur += ch
+    if cur.strip():
+        out.append(cur)
+    return [x.strip() for x in out if x.strip()]
+
+
+def _lean_type(t):
+    t = " ".join(t.split())
+    if _re.fullmatch(r"&\[S; N\]|&\[S\]", t):
+        return "List α"
+    if _re.fullmatch(r"&?impl Fn\(S, S\) -> S", t):
+        return "α → α → α"
+    if _re.fullmatch(r"&?impl Fn\(S\) -> S", t):
+        return "α → α"
+    if t == "S":
+        return "α"
+    raise ValueError(f"untranslatable parameter type `{t}`")
+
+
+def translate(ctx):
+    src_path = _os.path.join(ctx["repo"], "lattices/src/algebra.rs")
+    src = open(src_path).read()
+    src = src.split("#[cfg(test)]")[0]
+    fn_re = _re.compile(r"pub fn (\w+)<([^>]*)>\(\s*(.*?)\)\s*->\s*Result<\(\), &'static str>\s*\{(.*?)\n\}", _re.S)
+    fns = {}
+    for m in fn_re.finditer(src):
+        name, _gen, params, body = m.groups()
+        fns[name] = (_strip_comments(params), _strip_comments(body))
+    res = []
+    found = set(fns)
+    res.append(("algebra.rs: set of checker functions", found == _SINGLE | _COMPOSITE,
+                f"found {sorted(found)}" if found != _SINGLE | _COMPOSITE else f"{len(found)} functions"))
+    comps = {}
+    for name, (params, body) in fns.items():
+        stmts = [s.strip() for s in body.split(";") if s.strip()]
+        calls, ok = [], True
+        for s in stmts:
+            if s == "Ok(())":
+                continue
+            mm = _re.fullmatch(r"(\w+)\((.*)\)\?", s, _re.S)
+            if not mm:
+                ok = False
+                break
+            calls.append((mm.group(1), [a.strip() for a in _split_top(mm.group(2))]))
+        if ok and calls and stmts[-1] == "Ok(())":
+            comps[name] = (params, calls)
+    res.append(("algebra.rs: composite checkers are `?`-chains", set(comps) == _COMPOSITE,
+                f"composite-shaped: {sorted(comps)}"))
+    # emit in dependency order
+    order, seen = [], set()
+
+    def visit(n):
+        if n in seen or n not in comps:
+            return
+        seen.add(n)
+        for c, _ in comps[n][1]:
+            visit(c)
+        order.append(n)
+    for n in sorted(comps):
+        visit(n)
+    out = ["/- GENERATED by checks/C09.py (translate) from /repo/lattices/src/algebra.rs — do not edit.",
+           "   Each composite checker is the `?`-chain of its component checks, in source order. -/",
+           "import HvAlg.Model.Algebra", "namespace HvAlg", "section", "variable {α : Type} [DecidableEq α]", ""]
+    try:
+        for n in order:
+            params, calls = comps[n]
+            ps = []
+            for p in _split_top(params):
+                pn, pt = p.split(":", 1)
+                ps.append(f"({pn.strip()} : {_lean_type(pt.strip())})")
+            names = {p.split(":", 1)[0].strip() for p in _split_top(params)}
+            expr = "(.ok ())"
+            for c, args in reversed(calls):
+                largs = []
+                for a in args:
+                    a = a.lstrip("&").strip()
+                    a = _re.sub(r"\.clone\(\)$", "", a)
+                    if a not in names:
+                        raise ValueError(f"{n}: argument `{a}` of `{c}` is not a parameter")
+                    largs.append(a)
+                if c not in fns:
+                    raise ValueError(f"{n}: unknown callee `{c}`")
+                expr = f"(andThen ({_camel(c)} {' '.join(largs)}) {expr})"
+            out.append(f"/-- `{n}`: " + "; ".join(f"{c}({', '.join(a)})?" for c, a in calls) + " -/")
+            out.append(f"def {_camel(n)} {' '.join(ps)} : Res :=\n  {expr[1:-1]}")
+            out.append("")
+    except ValueError as ex:
+        res.append(("algebra.rs: composite bodies translate", False, str(ex)))
+        return res
+    out += ["end", "end HvAlg", ""]
+    text = "\n".join(out)
+    gp = _os.path.join(ctx["verif"], "lean/HvAlg/HvAlg/Gen/Composites.lean")
+    _os.makedirs(_os.path.dirname(gp), exist_ok=True)
+    if not _os.path.exists(gp) or open(gp).read() != text:
+        with open(gp, "w") as f:
+            f.write(text)
+    res.append(("algebra.rs: composite bodies translate", True, f"{len(order)} composites -> Gen/Composites.lean"))
+    return res
+
+
+SPEC["translate"] = translate
